@@ -99,6 +99,17 @@ Lemma cwalk_client : forall g t th k c cur, Inv g -> nth_error (threads g) t = S
              (k = KRelease -> c_released cl = true).
 Proof. intros. apply (inv_cwalk g (invC g H)). exists th. auto. Qed.
 
+Lemma walker_not_released : forall g t th k c cur cl, Inv g -> nth_error (threads g) t = Some th ->
+  t_pc th = CWalk k c cur -> get_client g c = Some cl -> k <> KRelease -> c_released cl = false.
+Proof. intros. eapply (inv_nrel g (invC g H) t k c cur cl); eauto. exists th; auto. Qed.
+
+Lemma free_hooked_not_released : forall g c cl h, Inv g -> get_client g c = Some cl -> c_mu cl = None ->
+  c_h cl = Some h -> c_released cl = false.
+Proof.
+  intros g c cl h I Hc Hm Hh. destruct (c_released cl) eqn:E; auto.
+  rewrite (inv_rel g (invC g I) c cl Hc E Hm) in Hh. discriminate.
+Qed.
+
 Lemma step_CWalk_hop : forall g t th k c cur hk r g',
   Inv g -> nth_error (threads g) t = Some th -> t_pc th = CWalk k c cur ->
   get_hook g cur = Some hk -> forwarded cur hk = true -> h_rh hk = Some r ->
@@ -120,6 +131,8 @@ Proof.
   - intros k0 c0 cur0 E. rewrite Hpc in E. inversion E; auto.
   - cbn. intros k0 c0 cur0 E. inversion E; subst. auto.
   - cbn. intros t' E. rewrite Hcm in E. inversion E; subst. eauto.
+  - cbn. intros _ E. rewrite Hcm in E. discriminate.
+  - cbn. intros k0 c0 cur0 E Hk. injection E as <- <- <-. eapply (walker_not_released g t th k c cur cl); eauto.
   - intros h Hne. unfold wclose, wcall. cbn. rewrite Hpc. auto.
   - unfold wtok. cbn. lia.
   - unfold wcall. cbn. rewrite Hpc. lia.
@@ -132,6 +145,7 @@ Proof. intros. apply Nat.eqb_neq. auto. Qed.
 
 Ltac g1_side Hpc Hx Hc :=
   try solve [side | intros; rewrite Hpc; discriminate];
+  try solve [cbn; intros; congruence];
   try match goal with
   | |- hooks _ = upd _ _ _ => cbn; first [ symmetry; apply upd_id; exact Hx | rewrite (upd_const _ _ _ _ _ Hx); reflexivity ]
   | |- clients _ = upd _ _ _ => cbn; rewrite ?upd_upd; rewrite (upd_const _ _ _ _ _ Hc); reflexivity
@@ -196,6 +210,9 @@ Proof.
   destruct (cwalk_end_facts g t th k c cur hk I Hth Hpc Hx Hmu Hf)
     as (cl & Hc & Hch & Hcm & Hrel & Htg & R1 & Hd & Racc & Rcal & Rclo & Rs & Rc0).
   assert (Hok : client_ok g (cl_mu None cl)) by (apply (inv_client g (invC g I) _ _ Hc)).
+  assert (Hnr : c_released cl = false).
+  { eapply (walker_not_released g t th k c cur cl I Hth Hpc Hc).
+    destruct Hk as [->|[(d & ->)|[(c2 & ->)|(h1 & ->)]]]; discriminate. }
   assert (Hdone : h_done hk = (h_refs hk =? 0) && (h_calls hk =? 0))
     by (destruct (inv_hook g (invH g I) cur hk Hx); auto).
   unfold cwalk_end in Hm |- *.
@@ -216,6 +233,7 @@ Proof.
   destruct (cwalk_end_facts g t th _ c cur hk I Hth Hpc Hx Hmu Hf)
     as (cl & Hc & Hch & Hcm & Hrel & Htg & R1 & Hd & Racc & Rcal & Rclo & Rs & Rc0).
   assert (Hok : client_ok g (cl_mu None cl)) by (apply (inv_client g (invC g I) _ _ Hc)).
+  assert (Hnr : c_released cl = false) by (eapply (walker_not_released g t th _ c cur cl I Hth Hpc Hc); discriminate).
   unfold cwalk_end in Hm |- *.
   eapply (G1 g _ t th _ cur hk (hk_calls (h_calls hk + 1) hk) c cl (cl_mu None cl) I Hth); g1_side Hpc Hx Hc.
   - unfold wtok; cbn; lia.
@@ -321,6 +339,9 @@ Ltac g0_walk I Hth Hpc Hc cl' :=
   | intros; cbn; discriminate
   | cbn; intros ? ? ? E; inversion E; subst; clear E; repeat split; auto; try discriminate
   | cbn; intros ? E; inversion E; subst; clear E; split; eauto
+  | cbn; intros ? E; discriminate E
+  | cbn; intros ? ? ? E Hk; inversion E; subst;
+    first [ congruence | assumption | eapply (free_hooked_not_released _ _ _ _ I Hc); eauto ]
   | intros; unfold wclose, wcall; cbn [t_pc]; rewrite Hpc; auto ].
 
 Lemma step_CLock : forall g t th k c g',
@@ -432,6 +453,7 @@ Proof.
   assert (Hok : client_ok gA (cl_mu None cl)) by (apply (inv_client gA (invC gA IA) _ _ HcA)).
   assert (HdA : h_done hkA = (h_refs hkA =? 0) && (h_calls hkA =? 0))
     by (destruct (inv_hook gA (invH gA IA) cur hkA HxA); auto).
+  assert (Hnr : c_released cl = false) by (eapply (walker_not_released g t th _ c cur cl I Hth Hpc Hc); discriminate).
   unfold cwalk_end in Hm |- *.
   eapply (G1 gA _ t th _ cur hkA hkA c cl (cl_mu None cl) IA HthA); g1_side Hpc HxA HcA.
   all: try solve [unfold wtok; cbn; lia].
@@ -452,6 +474,7 @@ Proof.
   destruct (cwalk_end_facts g t th _ c cur hk I Hth Hpc Hx Hmu Hf)
     as (cl & Hc & Hch & Hcm & Hrel & Htg & R1 & Hd & Racc & Rcal & Rclo & Rs & Rc0).
   assert (Hok : client_ok g (cl_mu None cl)) by (apply (inv_client g (invC g I) _ _ Hc)).
+  assert (Hnr : c_released cl = false) by (eapply (walker_not_released g t th _ c cur cl I Hth Hpc Hc); discriminate).
   unfold cwalk_end in Hm |- *.
   eapply (G1 g _ t th _ cur hk (hk_calls (h_calls hk + 1) hk) c cl (cl_mu None cl) I Hth); g1_side Hpc Hx Hc.
   - unfold wtok; cbn; lia.
